@@ -66,6 +66,18 @@ func runC06(c *Ctx) {
 			continue
 		}
 		g, _ := cf.Guarded(cf.LocOf(gcp[0]), func(ft eng.Fact) bool { return ft.ErrOf(true, storePats...) })
+		// PutValue reports success only after the lookup ran (no fast path around the network phase)
+		for i, ret := range cf.Returns() {
+			if len(ret.Results) != 1 {
+				continue
+			}
+			e := ret.Results[0]
+			if !isNil(info, e) && knownNonNilError(cf, ret, e) {
+				continue
+			}
+			okAfter := cf.Dominates(cf.LocOf(gcp[0]), cf.LocOf(ret))
+			c.Check(K(f.Name, "return#"+itoa(i)+" success only after the network phase"), ret.Pos(), okAfter, "PutValue returns without an error only after it looked up the closest peers and sent them the record (a repeated put of the same value is sent again: it may be a retry of a put that never reached anyone)", "a return that may carry a nil error is reachable without the lookup")
+		}
 		c.Check(K(f.Name, "lookup only after successful local store"), gcp[0].Pos(), g, "the network phase starts only after the record was stored locally", "GetClosestPeers not on the nil-error edge of putLocal")
 		rec := eng.ObjOf(info, pl[0].Args[2])
 		okRec := false
